@@ -91,6 +91,7 @@ def _wipe_workdir():
     wd = SC.workdir
     if wd and os.path.basename(wd) == "verif-fs-volatile" and os.path.isdir(wd):
         shutil.rmtree(wd, ignore_errors=True)
+    SC.ev("wipe")
 
 
 # ------------------------------------------------------------------------------------------------
@@ -232,6 +233,7 @@ class VCommand(Command):
                             f.write(content)
                         paths.append(p)
                     res = paths if self.out == "filelist" else paths[0]
+                SC.ev("done", job.name)
                 out = CommandOutput(res, Status.COMPLETED)
             except Exception as err:
                 # an input file that should be there is not: this is a job failure like any other
